@@ -19,6 +19,9 @@ def run(ctx):
         # resource exhaustion: every allocation path at the exact boundary of a full disk (harness reclaim)
         rl = fscklib.run_images(ctx, ok_drv, "reclaim", ["reclaim", "-seed", str(ctx.seed)] + (["-hists", "9", "-rounds", "3"] if ctx.tier == "thorough" else ["-hists", "3", "-rounds", "1"]), set(), False)
         fscklib.oracle_lines(ctx, rl, "C09", "harness reclaim -seed %d (full-disk scenarios)" % ctx.seed)
+        cl = fscklib.run_images(ctx, ok_drv, "crash-free", ["crash", "-seed", str(ctx.seed), "-mix", "free", "-disk", "40000", "-ops", "22"] +
+                                (["-workloads", "6", "-images", "400"] if ctx.tier == "thorough" else ["-workloads", "1", "-images", "100"]), set(), False)
+        fscklib.oracle_lines(ctx, cl, "C09", "crash: harness crash -mix free -seed %d (recovered servers: a failing CREATE handed a half-freed inode number)" % ctx.seed)
         for l in rl or []:
             if l.startswith("# HIST"):
                 for kv in l.split()[2:]:
@@ -31,7 +34,8 @@ def run(ctx):
         "not been issued; correspondence + implementation-side oracle: around every failing request the full tree dump (handles, attributes, cookies, "
         "content digests) and both allocators' free counts are compared",
         "as C02 with -c09: after every operation the tree is dumped through the API and the free counts recorded; a failing operation must leave both "
-        "unchanged; later operations keep being compared with the model (whose state did not change)",
+        "unchanged; later operations keep being compared with the model (whose state did not change); on servers recovered from a crash in the middle of freeing a large file, "
+        "a CREATE with a 200-byte name is handed the half-freed inode number first (abort, help the shrinker, retry) and must consume no inode",
         ["the reference model does not predict NOSPC: full-disk failures (WRITE needing an index block, MKDIR, SYMLINK with 0/1/2 free blocks) are exercised by harness reclaim with the implementation-side oracles only; other failures exercised: stale/malformed handles, "
          "name too long, existing/missing names, wrong kinds, non-empty directories, size/offset limits, oversized transfers, count/data mismatch"],
         pending=[])
